@@ -166,6 +166,45 @@ fn shadowed_const_cases(out: &mut Vec<Case>) {
     }
 }
 
+/// An outer integer const hidden, where the width is written, by a binding of the same name
+/// that is not a constant integer (a local, a loop variable, a subroutine parameter -- used in
+/// the body and in a later parameter of the same list): the width is not constant, whatever
+/// the outer const says.  And the reverse: the hiding binding comes only after the use.
+fn hidden_const_cases(out: &mut Vec<Case>) {
+    let decls = ["int[n] x", "uint[n] x", "bit[n] x", "qubit[n] x", "float[n] x", "angle[n] x", "complex[float[n]] x"];
+    for ct in ["int", "uint[64]", "int[128]"] {
+        for w in [4u32, 8] {
+            let pre = format!("const {} n = {};", ct, w);
+            let wrong = vec![w, 3, 1];
+            for d in decls {
+                let mut bad = |tag: &str, text: String| {
+                    out.push(Case { text, tag: format!("hidden-const/{}/{}", tag, ct), expect: vec![], bad_width: Some(("x".into(), wrong.clone())), gates: None, def_ret: None, nontrivial: true });
+                };
+                for (sname, a, b) in SCOPES.iter().filter(|s| s.0 != "global" && s.0 != "gate") {
+                    bad(&format!("local-{}", sname), format!("{} {}int n = 3; {};{}", pre, a, d, b));
+                    bad(&format!("outer-local-{}", sname), format!("{} {}int n = 3; if (true) {{ {}; }}{}", pre, a, d, b));
+                }
+                bad("loopvar", format!("{} for int n in [0:3] {{ {}; }}", pre, d));
+                bad("param-body", format!("{} def ff(int n) {{ {}; }}", pre, d));
+                bad("param-body-second", format!("{} def ff(bit k, int n) {{ {}; }}", pre, d));
+                bad("param-param", format!("{} def ff(int n, {}) {{ }}", pre, d));
+                bad("param-param-far", format!("{} def ff(int n, bit k, {}) {{ }}", pre, d));
+                bad("qubit-param-param", format!("{} def ff(qubit n, {}) {{ }}", pre, d));
+            }
+            for (d, ty) in [("int[n] x", Type::Int(Some(w), IsConst::False)), ("bit[n] x", Type::BitArray(ArrayDims::D1(w as usize), IsConst::False)), ("qubit[n] x", Type::QubitArray(ArrayDims::D1(w as usize)))] {
+                for (tag, text) in [
+                    ("param-before-hider", format!("{} def ff({}, int n) {{ }}", pre, d)),
+                    ("param-other-name", format!("{} def ff(int m, {}) {{ }}", pre, d)),
+                    ("local-before-hider", format!("{} if (true) {{ {}; int n = 3; }}", pre, d)),
+                    ("hider-in-other-def", format!("{} def gg(int n) {{ }} def ff({}) {{ }}", pre, d)),
+                ] {
+                    out.push(Case { text, tag: format!("hidden-const/{}/{}", tag, ct), expect: vec![("x".into(), ty.clone())], bad_width: None, gates: None, def_ret: None, nontrivial: true });
+                }
+            }
+        }
+    }
+}
+
 /// Widths and lengths written in every radix and with underscores and leading zeros.
 fn radix_width_cases(out: &mut Vec<Case>) {
     for w in [1u32, 8, 9, 10, 15, 16, 17, 31, 32, 64, 100, 255] {
@@ -472,6 +511,8 @@ pub fn spaces(tier: Tier, _seed: u64) -> Vec<Box<dyn Space>> {
     bad_cases(&mut bad);
     let mut shadowed = Vec::new();
     shadowed_const_cases(&mut shadowed);
+    let mut hidden = Vec::new();
+    hidden_const_cases(&mut hidden);
     let mut radix = Vec::new();
     radix_width_cases(&mut radix);
     let mut sig = Vec::new();
@@ -481,6 +522,7 @@ pub fn spaces(tier: Tier, _seed: u64) -> Vec<Box<dyn Space>> {
         Box::new(Decls { family: "const-width", cases: cw }),
         Box::new(Decls { family: "bad-width", cases: bad }),
         Box::new(Decls { family: "shadowed-const", cases: shadowed }),
+        Box::new(Decls { family: "hidden-const", cases: hidden }),
         Box::new(Decls { family: "radix-width", cases: radix }),
         Box::new(Decls { family: "signatures", cases: sig }),
     ]
